@@ -26,42 +26,56 @@ inductive RefRes where
   | ok (h : Heap) (hidden : Bool)      -- success: exactly Python's `del`
   | missingFinal (e : PyExc)           -- the final element is absent
   | missingParent (k : Nat) (e : PyExc)
-  | fault                              -- deletion fault (immutable container, raising dunder, bad constructor args …)
-  | partialFail                        -- a wildcard match that cannot be deleted (nothing prescribed for the heap)
+  /-- deletion fault (immutable container, raising dunder, bad constructor args …).  `silent`: the
+      failure is that of the `delete` handler registered for a plain segment — whatever it raises
+      means "cannot be deleted": a PathDeleteError, and silently ignored under `ignore_missing`;
+      otherwise (`T[..]` / `T.attr` raising something else than the lookup errors, a type without
+      handler, a path the constructor rejects) the error is raised whatever `ignore_missing` says -/
+  | fault (silent : Bool)
+  /-- a wildcard match that cannot be deleted: an error, the heap as the deletions before it left it -/
+  | partialFail (h : Heap) (hidden : Bool)
   | unsupported
   deriving DecidableEq, Repr
 
-/-- delete at every match, in order; under `ignore_missing` absent elements are skipped -/
-def seqDel (env : MEnv) (ignore : Bool) (op : String) (arg : Val) : Heap → Bool → List Val → Option (Heap × Bool)
-  | h, hid, [] => some (h, hid)
+/-- which failures of the final step mean "cannot be deleted" (silently skipped under
+    `ignore_missing`, a PathDeleteError otherwise): for `T[..]` / `T.attr` the lookup errors Python's
+    `del` raises for an absent element; for a plain segment every exception of the registered handler.
+    Stated by the reading, not taken from the extracted `except` clauses (`delExactOK` ties them). -/
+def swallowed (op : String) (e : PyExc) : Bool := op == "P" || missingExc e
+
+/-- delete at every match, in order; under `ignore_missing` the matches that "cannot be deleted"
+    are skipped; `.error`: the first match whose deletion raises, with the heap left so far -/
+def seqDel (env : MEnv) (ignore : Bool) (op : String) (arg : Val) :
+    Heap → Bool → List Val → Except (Heap × Bool) (Heap × Bool)
+  | h, hid, [] => .ok (h, hid)
   | h, hid, d :: ds =>
     match refDelOp env h op d arg with
     | some (.ok w) => seqDel env ignore op arg w.heap (hid || w.hidden) ds
-    | some (.error e) => if ignore && missingExc e then seqDel env ignore op arg h hid ds else none
-    | none => none
+    | some (.error e) => if ignore && swallowed op e then seqDel env ignore op arg h hid ds else .error (h, hid)
+    | none => .error (h, hid)
 
 def refDelete (env : MEnv) (h : Heap) (root : Val) (orig : List Step) (ignore : Bool) : RefRes :=
   match orig.getLast? with
-  | none => .fault
+  | none => .fault false
   | some (op, arg) =>
-    if !finalOk op then .fault else
+    if !finalOk op then .fault false else
     let parent := orig.dropLast
     match matchesOf env h parent 0 root with
     | .ok ds =>
       if hasStar parent then
         match seqDel env ignore op arg h false ds with
-        | some (h', hid) => .ok h' hid
-        | none => .partialFail
+        | .ok (h', hid) => .ok h' hid
+        | .error (h', hid) => .partialFail h' hid
       else
         match ds with
         | [d] =>
           match refDelOp env h op d arg with
           | some (.ok w) => .ok w.heap w.hidden
-          | some (.error e) => if missingExc e then .missingFinal e else .fault
-          | none => .fault
+          | some (.error e) => if missingExc e then .missingFinal e else .fault (op == "P")
+          | none => .fault false
         | _ => .unsupported
     | .fail k e _ => .missingParent k e
-    | .unreg => .fault
+    | .unreg => .fault false
     | .unsupported => .unsupported
 
 /-- **The property, evaluated on an observation** (of the model, or of the implementation). -/
@@ -77,11 +91,34 @@ def checkC12 (env : MEnv) (h : Heap) (target root : Val) (orig : List Step) (ign
   | .missingParent _ _ =>
     if ignore then silent
     else unchanged && (match obs.res with | .err _ _ _ _ isPAE _ _ _ => isPAE | .ok _ => false)
-  | .fault => unchanged && (obs.res.isErr || (ignore && obs.res == .ok target))
-  | .partialFail => obs.res.isErr || ignore
+  | .fault silent =>
+    unchanged && (if silent then
+        (if ignore then obs.res == .ok target
+         else (match obs.res with | .err _ _ _ _ _ _ isPDelete _ => isPDelete | .ok _ => false))
+      else obs.res.isErr)
+  | .partialFail h' hid => obs.res.isErr && obs.heap == h' && obs.hidden == hid
   | .unsupported => false
 
 def observe (env : MEnv) (out : St × Except MErr Val) : Obs := C11.observe env out
+
+/-- the prescription as the read-back step of a chain meets it: the heap the deletion leaves (the
+    original one when a missing element / an undeletable one was silently ignored), or no read at all -/
+def readRef (ref : RefRes) (h : Heap) (ignore : Bool) : C11.RefRes :=
+  match ref with
+  | .ok h' hid => .ok h' hid 0
+  | .missingFinal _ => if ignore then .ok h false 0 else .fail true
+  | .missingParent _ _ => if ignore then .ok h false 0 else .fail true
+  | .fault s => if ignore && s then .ok h false 0 else .fail true
+  | .partialFail _ _ => .fail false
+  | .unsupported => .unsupported
+
+/-- **Read-back after a delete, evaluated on an observation**: the later step sees exactly what the same
+    path reads in the heap Python's `del` leaves (a PathAccessError at the deleted element when the read
+    path goes through it); after a Delete that raised the read never runs.  For an S-rooted path: the
+    scope variables as they were — a Delete in a chain cannot unbind a variable of an outer frame. -/
+def checkReadDel (env : MEnv) (h : Heap) (root : Val) (orig : List Step) (ignore : Bool)
+    (rd : List Step) (obsHeap : Heap) (ro : C11.ReadObs) : Bool :=
+  C11.checkReadRef env h.length root (readRef (refDelete env h root orig ignore) h ignore) rd obsHeap ro
 
 /-! ### well-formedness of the extracted facts -/
 
@@ -97,6 +134,14 @@ def delCatches (env : MEnv) (op kind : String) (needed : List String) : Bool :=
     k == kind && raises == "PathDeleteError" && needed.all (fun n => C01.caughtBy env.t caught ⟨n⟩)
   | none => false
 
+/-- the `except` clauses of `_del_one` catch no more than the reading says: of what the item / attribute
+    deletion primitives raise, `[` and `.` let RuntimeError and TypeError through -/
+def delExactOK (env : MEnv) : Bool :=
+  ["[", "."].all (fun op =>
+    match branchOf env.delBr op with
+    | some (_, caught, _) => ["RuntimeError", "TypeError"].all (fun n => !C01.caughtBy env.t caught ⟨n⟩)
+    | none => false)
+
 def WF (env : MEnv) : Bool :=
   C01.WF env.t &&
   C01.dispatchOf env.t "x" == some ("star", []) &&
@@ -106,10 +151,11 @@ def WF (env : MEnv) : Bool :=
   env.t.excTable.isSub "PathDeleteError" "PathAssignError" &&
   env.t.excTable.isSub "PathDeleteError" "GlomError" &&
   env.t.excTable.isSub "PathDeleteError" "PathDeleteError" &&
-  env.t.excTable.isSub "PathAccessError" "PathAccessError"
+  env.t.excTable.isSub "PathAccessError" "PathAccessError" &&
+  delExactOK env
 
 /-- the hypotheses of the wildcard-free theorems, as one decidable test -/
 def covered (env : MEnv) (orig : List Step) : Bool :=
-  WF env && classesOK env && C01.wfSteps orig
+  WF env && classesOK env && C01.wfSteps orig && intSafe orig
 
 end Glom.C12
